@@ -135,6 +135,15 @@ def handle : List String → String
     match parseInt lag, parseInt contour, parseInt fs, parseNat nb with
     | some lag, some c, some fs, some nb => resStr okList (decodePitch lag c fs nb)
     | _, _, _, _ => "bad-op"
+  | ["pitchenc", fs, nb, li, ci] =>
+    -- integer tail of silk_pitch_analysis_core_FLP at lag = min_lag + lagIndex, CBimax = contourIndex, followed by
+    -- silk_decode_pitch on the indices it stores
+    match parseInt fs, parseNat nb, parseInt li, parseInt ci with
+    | some fs, some nb, some li, some ci =>
+      match pitchEncTail fs nb (Opus.Gen.SilkNlsf.peMinLagMs * fs + li) ci with
+      | .ok o => s!"OK enc={intList o.pitchOut} li={o.lagIndex} ci={o.contourIndex} dec={resStr intList (decodePitch o.lagIndex o.contourIndex fs nb)}"
+      | r => resStr (fun _ => "") r
+    | _, _, _, _ => "bad-op"
   | ["interp", coef, prev, cur] =>
     match parseInt coef, parseIntList prev, parseIntList cur with
     | some k, some p, some c =>
